@@ -320,6 +320,9 @@ def twin_siblings(root):
     try:
         if isinstance(root, E.EqualExpression):
             l, r = root.left, root.right
+            if isinstance(l, E.EqualExpression) or isinstance(r, E.EqualExpression):
+                return root      # a chain a = b = c: an equation is not an addend
+
             new = E.EqualExpression(E.AddExpression(l.clone(), l.clone()), E.MultiplyExpression(E.ConstantExpression(2), r.clone()))
         else:
             new = E.AddExpression(root.clone(), root.clone())
